@@ -409,8 +409,9 @@ Section Model.
     (cas_put (H content) content st, dig content).
 
   (* Load: nothing to do if the file at the path hashes to the digest; else CAS read,
-     os.Create(path) (parent missing => error; directory at the path => error; existing file =>
-     truncated and its mode kept; new file => 0666 &^ umask, never executable), copy. *)
+     MkdirAll(parent) (since bb649a3; before, a missing parent made os.Create fail),
+     os.Create(path) (directory at the path => error; existing file => truncated and its mode
+     kept; new file => 0666 &^ umask, never executable), copy. *)
   Definition file_load (d : digest) (st : cas) (dest : dest_state) : result node :=
     match dest with
     | DFile c x =>
@@ -419,12 +420,11 @@ Section Model.
              | Some b => Done (File b x)
              | None => Error
              end
-    | DAbsent =>
+    | DAbsent | DParentAbsent =>
         match cas_get st (d_hash d) with
         | Some b => Done (File b false)
         | None => Error
         end
-    | DParentAbsent => Error
     | DDir _ => Error
     end.
 
@@ -432,7 +432,7 @@ Section Model.
   Definition file_restore_exec (dest : dest_state) : bool :=
     match dest with DFile _ x => x | _ => false end.
   Definition file_restore_possible (dest : dest_state) : bool :=
-    match dest with DFile _ _ | DAbsent => true | _ => false end.
+    match dest with DDir _ => false | _ => true end.
 End Model.
 
 (* ------------------------------------------------------------------ the error channel of Load as
